@@ -14,6 +14,7 @@ import (
 	"os"
 	"path/filepath"
 	"regexp"
+	"runtime"
 	"sort"
 	"strings"
 	"sync"
@@ -555,8 +556,15 @@ func sigReason(r string) string {
 	return "other"
 }
 
-// maxStates bounds the memory of one search (a state carries its artefacts).
+// maxStates and maxHeap bound the memory of one search (a state carries its artefacts).
 const maxStates = 300_000
+const maxHeap = 14 << 30
+
+func heapInUse() uint64 {
+	var m runtime.MemStats
+	runtime.ReadMemStats(&m)
+	return m.HeapAlloc
+}
 
 func (x *searcher) explore(depth int, ops []Op) {
 	init := &State{V: initialVars(), Art: map[string]string{}, M: newModel()}
@@ -568,43 +576,66 @@ func (x *searcher) explore(depth int, ops []Op) {
 			x.r.Cap(fmt.Sprintf("wall-clock budget: depth %d not started (complete to depth %d)", d, d-1))
 			break
 		}
-		succ := make([][]*State, len(frontier))
+		// the level is expanded in chunks and de-duplicated after each one, so that memory is
+		// bounded by the distinct states (every state carries its artefacts), not by the
+		// number of transitions
+		const chunk = 2048
+		var next []*State
 		stopped := atomic.Bool{}
-		expand := func(i int) {
-			if x.r.Expired() {
-				stopped.Store(true)
-				return
+		full := ""
+		for lo := 0; lo < len(frontier) && full == "" && !stopped.Load(); lo += chunk {
+			part := frontier[lo:min(lo+chunk, len(frontier))]
+			succ := make([][]*State, len(part))
+			expand := func(i int) {
+				if x.r.Expired() {
+					stopped.Store(true)
+					return
+				}
+				for _, op := range ops {
+					succ[i] = append(succ[i], x.step(part[i], op)...)
+				}
 			}
-			for _, op := range ops {
-				succ[i] = append(succ[i], x.step(frontier[i], op)...)
+			if controlled {
+				// builds run under the (process-global) controlled scheduler: one at a time
+				for i := range part {
+					expand(i)
+				}
+			} else {
+				x.r.Parallel(len(part), expand)
 			}
-		}
-		if controlled {
-			// builds run under the (process-global) controlled scheduler: one at a time
-			for i := range frontier {
-				expand(i)
+			for _, ss := range succ {
+				for _, s := range ss {
+					k := s.key()
+					if !seen[k] {
+						seen[k] = true
+						next = append(next, s)
+					}
+				}
 			}
-		} else {
-			x.r.Parallel(len(frontier), expand)
+			if lo+chunk < len(frontier) {
+				if total+len(next) > maxStates {
+					full = fmt.Sprintf("state cap %d reached", maxStates)
+				} else if h := heapInUse(); h > maxHeap {
+					full = fmt.Sprintf("memory cap reached (%d MiB of states)", h>>20)
+				}
+			}
 		}
 		if stopped.Load() {
 			x.r.Cap(fmt.Sprintf("wall-clock budget: depth %d only partly explored (complete to depth %d)", d, d-1))
 		}
-		var next []*State
-		for _, ss := range succ {
-			for _, s := range ss {
-				k := s.key()
-				if !seen[k] {
-					seen[k] = true
-					next = append(next, s)
-				}
-			}
+		if full != "" {
+			x.r.Cap(fmt.Sprintf("%s: depth %d only partly explored (complete to depth %d)", full, d, d-1))
 		}
 		total += len(next)
 		x.r.Add("states_at_depth_"+fmt.Sprint(d), int64(len(next)))
-		x.r.Max("depth_completed", int64(d))
+		if full == "" && !stopped.Load() {
+			x.r.Max("depth_completed", int64(d))
+		}
 		frontier = next
-		if total > maxStates && d < depth {
+		if full != "" {
+			break
+		}
+		if (total > maxStates || heapInUse() > maxHeap) && d < depth {
 			// memory bound: states carry their artefacts (a few KB each)
 			x.r.Cap(fmt.Sprintf("state cap %d reached: complete to depth %d, depth %d not explored", maxStates, d, d+1))
 			break
